@@ -146,6 +146,10 @@ def simulate_store(spec, nodes, edges):
     return names, es
 
 
+WSCALES = [-60, -60, -3, 40]     # see centgen.py: dyadic weight scale applied inside the harness
+BIGODD = 1 << 24
+
+
 def gen_graph(r, i, zero_ok, big=False):
     d, m, s = (i >> 0) & 1, (i >> 1) & 1, (i >> 2) & 1
     dd = r.pick([1, 2, 1, 2, 0]) if not m else r.below(3)
@@ -323,13 +327,22 @@ def gen_calls(r, kind, spec, nodes, es, wmode, big):
 
 def gen_cases(kind, seed, n):
     r = gv.SplitMix(seed * 1000003 + (4 if kind == "c04" else 8))
+    r2 = gv.SplitMix(seed * 7919 + (404 if kind == "c04" else 808))
     cases = []
     for i in range(n):
         big = (i % 25 == 24)
         spec, nodes, es, wmode = gen_graph(r, i + r.below(8) * (i >= 8), zero_ok=(kind == "c04"), big=big)
+        wscale = 0
+        if wmode != "nan":
+            # weight variants, drawn from a separate stream (the base cases stay as they were): a dyadic
+            # scale applied inside the harness (see centgen.WSCALES)
+            x = r2.below(100)
+            if x < 24:
+                wscale = r2.pick(WSCALES)
+            # (weights 2^24 + w are not used here: the model's path enumeration takes the distance as fuel)
         calls = gen_calls(r, kind, spec, nodes, es, wmode, big)
         cases.append({"id": "%s_%d" % (kind, i), "spec": spec, "nodes": nodes, "edges": es,
-                      "wmode": wmode, "calls": calls})
+                      "wmode": wmode, "calls": calls, "wscale": wscale})
     return cases
 
 
@@ -349,7 +362,8 @@ def h_call(c):
 
 
 def to_harness(c):
-    lines = ["case %s" % c["id"], "spec %d %d %d %d %d %d" % tuple(c["spec"]),
+    lines = ["case %s" % c["id"]] + (["wscale %d" % c["wscale"]] if c.get("wscale") else []) + [
+             "spec %d %d %d %d %d %d" % tuple(c["spec"]),
              "graph %d %s %d %s" % (len(c["nodes"]), " ".join(hist.h_node(n) for n in c["nodes"]),
                                     len(c["edges"]), " ".join(hist.h_edge(e) for e in c["edges"]))]
     lines = [" ".join(l.split()) for l in lines]
@@ -927,3 +941,5 @@ C08.manifest = {
     "technique": "Coq proof of the transcribed algorithm + spec-level theorems + differential correspondence + "
                  "metamorphic oracle",
 }
+C04.rule += ' WEIGHT VARIANTS (separate PRNG stream): 24% of the weighted cases are run with a dyadic weight scale applied inside the harness (all weights x 2^k on input, weight-valued observations / 2^k on output, k in {-60, -3, 40}; exact in binary64, so the observations must equal those of the unscaled integers the model and the oracle use): path-length differences far below f64::EPSILON, all weights below 1, large magnitudes.'
+C08.rule += ' WEIGHT VARIANTS (separate PRNG stream): 24% of the weighted cases are run with a dyadic weight scale applied inside the harness (all weights x 2^k on input, weight-valued observations / 2^k on output, k in {-60, -3, 40}; exact in binary64, so the observations must equal those of the unscaled integers the model and the oracle use): path-length differences far below f64::EPSILON, all weights below 1, large magnitudes.'
